@@ -271,6 +271,99 @@ def rowwise_decisions(chk):
 
 
 
+def design_level_search(chk, which="C05"):
+    """the real Design*.find_design reached through the manager (design class, search constructor, search) with only the field simulation
+    replaced by a synthetic excess, strictly decreasing in the borehole count: candidate lists of 80-200 fields, a threshold at many
+    positions.  The selected field is the FIRST candidate that meets the limits at maximum height; what the search works with (height
+    window, borehole cap, policy) is what was requested."""
+    rng = chk.rng
+    quick = chk.tier == "quick"
+    geoms = [("NEARSQUARE", {"length": 200, "b": 5.0}), ("RECTANGLE", {"length": 150, "width": 90, "b_min": 3.0, "b_max": 10.0}), ("NEARSQUARE", {"length": 300, "b": 6.096})]
+    if not quick:
+        geoms += [("NEARSQUARE", {"length": 155, "b": 5.0}), ("RECTANGLE", {"length": 240, "width": 60, "b_min": 4.0, "b_max": 12.0}), ("NEARSQUARE", {"length": 487.5, "b": 4.875})]
+    cases = []
+    for gname, go in geoms:
+        for variant in (({}, ) if quick else ({}, {"continue_if_design_unmet": True})):
+            cases.append({"cfg": cfg(gname, months=12, geom_over=go, design=dict(variant)), "thresholds": None})
+    # first pass: candidate counts (thresholds need them)
+    probe = run_impl("design_stub.py", {"cases": [{"cfg": c["cfg"], "thresholds": []} for c in cases]}, timeout=900)
+    if isinstance(probe, dict) and "_error" in probe:
+        chk.broken.append({"name": "design-level search harness failed", "detail": probe["_error"][-300:]})
+        return
+    jobs = []
+    for c, pr in zip(cases, probe):
+        if not pr.get("ok"):
+            chk.broken.append({"name": "design-level search harness failed", "detail": json.dumps(pr)[-300:]})
+            continue
+        counts = pr["counts"]
+        n = len(counts)
+        ks = sorted(set([0, 1, 2, n - 1, n - 2] + rng.sample(range(n), min(n, 14 if quick else 40))))
+        c["thresholds"] = [counts[k] + 0.25 for k in ks] + [counts[-1] + 7.25, 0.4]
+        c["_counts"] = counts
+        jobs.append(c)
+        # with a cap somewhere in the list
+        k = rng.randrange(n // 3, n - 2)
+        capc = json.loads(json.dumps(c["cfg"]))
+        capc["design"]["max_boreholes"] = counts[k] + 1
+        jobs.append({"cfg": capc, "thresholds": [counts[j] + 0.25 for j in sorted(set([1, k - 1, k, k + 1, n - 1] + rng.sample(range(n), 5)))], "_counts": counts})
+    from concurrent.futures import ThreadPoolExecutor
+    with ThreadPoolExecutor(max_workers=NPROC) as ex:
+        rs = list(ex.map(lambda c: run_impl("design_stub.py", {"cases": [{"cfg": c["cfg"], "thresholds": c["thresholds"]}]}, timeout=1500), jobs))
+    nn = 0
+    for c, rr in zip(jobs, rs):
+        if isinstance(rr, dict) and "_error" in rr:
+            chk.broken.append({"name": "design-level search harness failed", "detail": rr["_error"][-300:]})
+            continue
+        o = rr[0]
+        if not o.get("ok"):
+            chk.broken.append({"name": "design-level search harness failed", "detail": json.dumps(o)[-300:]})
+            continue
+        counts = o["counts"]
+        gc, dz = c["cfg"]["geometric_constraints"], c["cfg"]["design"]
+        cap, cont = dz.get("max_boreholes"), dz.get("continue_if_design_unmet", False)
+        allowed = [x for x in counts if cap is None or x < cap]
+        for run in o["runs"]:
+            chk.cov["evaluations"] += 1
+            nn += 1
+            t = run["t"]
+            pub = {"geometric_constraints": gc, "design": dz, "candidate_counts": f"{len(counts)} fields, {counts[0]}..{counts[-1]} boreholes",
+                   "synthetic_excess": f"{t} - boreholes - (h - hmin)/(hmax - hmin)/2"}
+            if len(chk.violations) >= 5:
+                break
+            feas = [x for x in allowed if t - x - 0.5 < 0]
+            too_small = t - allowed[0] < 0
+            if run["ok"]:
+                if run["search_limits"] != [gc["min_height"], gc["max_height"]] or run["cap"] != cap or bool(run["cont"]) != bool(cont):
+                    chk.violation("design-stub", pub, {"search_works_with": {"heights": run["search_limits"], "max_boreholes": run["cap"], "continue": run["cont"]}},
+                                  "the search works with the requested height window, borehole cap and unmet-design policy")
+                    continue
+                if too_small or not feas:
+                    want = allowed[0] if too_small else allowed[-1]
+                    if not cont or run["selected_n"] != want:
+                        chk.violation("design-stub", pub, {"selected_boreholes": run["selected_n"], "expected": want if cont else "ValueError"},
+                                      "no candidate brackets the limits: an error, or with the continue flag the smallest / largest allowed candidate")
+                    continue
+                if which == "C02":
+                    if cap is not None and run["selected_n"] >= cap + 0 and run["selected_n"] > cap:
+                        chk.violation("design-stub", pub, {"selected_boreholes": run["selected_n"]}, f"at most max_boreholes={cap}")
+                    continue
+                if run["selected_n"] != feas[0]:
+                    pred_evaluated = any(e[0] == max([x for x in allowed if x < run["selected_n"]], default=-1) for e in run["evaluated"])
+                    chk.violation("design-stub", pub, {"selected_boreholes": run["selected_n"], "first_candidate_meeting_the_limits_at_max_height": feas[0],
+                                                       "candidate_before_the_selected_one_was_evaluated": pred_evaluated, "iteration_cap_of_the_search": run.get("max_iter")},
+                                  "the first feasible candidate is selected (the candidate immediately preceding it was evaluated and fails at maximum height)")
+            else:
+                if run["exc"] != "ValueError":
+                    chk.violation("design-stub", pub, {"exception": run["exc"], "msg": run.get("msg")}, "a search ends with a design or a ValueError")
+                elif feas and not too_small:
+                    chk.violation("design-stub", pub, {"exception": "ValueError", "msg": run.get("msg"), "first_feasible": feas[0]}, "a candidate meets the limits: the search returns it")
+                elif cont:
+                    chk.violation("design-stub", pub, {"exception": "ValueError", "msg": run.get("msg")}, "with continue_if_design_unmet the unmet design is returned, not an error")
+    chk.cov["design_level_searches"] = nn
+
+
+
+
 def run_search_check(chk, which, props_file, e2e_cfgs, e2e_oracle, extra=None, extra_models=()):
     quick = chk.tier == "quick"
     chk.build(props_file, extra=["Model/Search", "Model/SearchCases"] + list(extra_models))
